@@ -6,9 +6,9 @@ set -u
 dir="$1"; tier="$2"; shift 2
 wt=$(mktemp -d /tmp/vfseed.XXXXXX); rmdir "$wt"
 git -C /repo worktree add -q --detach "$wt" HEAD || exit 3
-cleanup() { git -C /repo worktree remove --force "$wt" 2>/dev/null; rm -rf "$wt"; }
+cleanup() { git -C /repo worktree remove --force "$wt" 2>/dev/null; rm -rf "$wt" "$demo"; }
 trap cleanup EXIT
-demo="$dir/demo.py"
+demo=$(mktemp /tmp/vfdemo.XXXXXX.py); sed "s#/tmp/seed/C[0-9][0-9]#$wt#g" "$dir/demo.py" > "$demo"
 ( cd "$wt" && PYTHONPATH="$wt" /venv/bin/python "$demo" >/dev/null 2>&1 ); echo "demo without change: rc=$?"
 git -C "$wt" apply "$dir/patch.diff" || { echo "patch does not apply"; exit 3; }
 ( cd "$wt" && PYTHONPATH="$wt" /venv/bin/python "$demo" >/dev/null 2>&1 ); echo "demo with change:    rc=$?"
